@@ -163,6 +163,21 @@ def asis_roots(op, arg, recipes):  # noqa: C901, PLR0911, PLR0912
             e = arg.get("extra")
             return list(e.values()) if isinstance(e, dict) else []
         return list(arg.extra.values())
+    if t == "WithExtra5":
+        # meta: Any, labels / extra: Dict[str, Any] -> meta, the values of labels and of extra are as is
+        if load:
+            if not isinstance(arg, dict):
+                return []
+            out = [arg.get("meta")]
+            lb = arg.get("labels")
+            out.extend(lb.values() if isinstance(lb, dict) else [])
+            if collect:
+                out.extend(v for k, v in arg.items() if k not in ("a", "meta", "labels"))
+            else:
+                e = arg.get("extra")
+                out.extend(e.values() if isinstance(e, dict) else [])
+            return out
+        return [arg.meta, *arg.labels.values(), *arg.extra.values()]
     if t in ("SatModel", "SatOpt"):
         # `more: Dict[str, Any]`: values are Any; with the saturator recipe they are the untyped extra data
         if load:
